@@ -123,6 +123,30 @@ def main(argv=None):
     nshards = a.shards or tier.get("shards", NCPU)
     results = run_shards(prop, a.tier, seed, nshards, tier.get("watchdog", 900))
     tot = merge(results)
+    # thorough tier: the monitors also ride on the repository's own tests
+    from .engines import ride as R
+
+    if a.tier == "thorough" and prop in R.RIDE_PROPS:
+        rr = R.ride(prop)
+        if "error" in rr:
+            tot["inconclusive"].append("ride on repository tests: " + rr["error"])
+        else:
+            tot["counters"].update({"ride:" + k: v for k, v in rr["stats"].items()})
+            if rr.get("pytest_rc"):
+                tot["notes"].append("repository tests exited %s under the riding monitors" % rr["pytest_rc"])
+            for v in rr["violations"]:
+                if prop not in v["props"]:
+                    if "HARNESS" in v["props"]:
+                        tot["inconclusive"].append("ride auditor: %s" % json.dumps(v["detail"])[:300])
+                    continue
+                if v["kind"].startswith("KNOWN:"):
+                    tot["known"].append({"mechanism": v["kind"][6:], "detail": v["detail"], "case": "ride"})
+                    continue
+                os.makedirs(os.path.join(VERIF, "replays"), exist_ok=True)
+                cf = os.path.join(os.environ.get("VERIF_REPLAY_DIR") or os.path.join(VERIF, "replays"), "%s-ride.json" % prop)
+                jdump_file({"engine": "ride", "violation": v}, cf)
+                tot["violations"].append({"discrepancy": v, "case": "ride", "case_file": cf})
+            tot["cases"] += rr["stats"].get("states_audited_on_repo_tests", 0) if prop != "C14" else rr["stats"].get("C14_windows_on_repo_tests", 0)
     wall = time.time() - t0
     # ---- known findings
     known = [k for k in load_known() if k.get("property") == prop and k.get("status") == "known"]
